@@ -27,6 +27,30 @@ CLAIMED = {
 NOT_YET = {}
 import subprocess
 HOOKS = [l.split()[0] for l in subprocess.run(['git','-C','/repo','log','--format=%H %s'],capture_output=True,text=True).stdout.splitlines() if l.split(' ',1)[1].startswith('hook:')]
+TEXT = {
+ "C01": "Every decode / render / Debug / velocity-computation / pairing / tracker-update call of ~110 K (quick) inputs is recorded with its outcome and allocation and judged by TLC (Trace_Decode.Totality, Trace_Pair, Trace_Tracker): DF x length grid 0..32, every value of every <=13-bit field in every carrier, extremes, boundary CPR pairs, polar/antimeridian receivers, range limits 0..19000 km. Exhaustive per field, sampled across fields; 'never' over 2^112 frames is not proved.",
+ "C02": "Frame!Accepts (TLA+) is evaluated by TLC on every recorded buffer: all 32 format codes x lengths 0..32, every frame shape (format x payload variant) at length-1 / exact / with tails (tail events must project like the frame before them), the full 2^9 grid of type-31 reserved bits x version x subtype x DF17/18, truncations. MC_Reader checks OkIffLongEnough/NoOverread on the reader model.",
+ "C03": "The checksum of every recorded frame is compared by TLC with bitwise polynomial division in TLA+ (Crc!Checksum): sweeps that read out every table entry at every byte position, random and valid frames of every format, 1.5 K (quick) / 60 K (thorough) corruptions. Step D: MC_Crc explores 234 249 states and shows on the specification that no error pattern of weight <= 5 in 112 bits has syndrome 0, plus bursts and linearity - which with the conformance of the implementation's checksum gives the detection claim.",
+ "C04": "Header and address fields of every recorded frame are compared with Bits!Field extraction at the Annex 10 offsets: every value of every header field x every payload type, walking-one over every frame shape; all 2^24 addresses are rendered and parsed back by the recorder (oracle-free equation, count and samples judged by TLC).",
+ "C05": "CPR!GlobalDecode in exact integer arithmetic (TLA+) judges 29 K (quick) / 1.1 M (thorough) recorded pairings within 3 micro-degrees: encoded true positions, displacements, poles, equator, antimeridian, NL transitions, raw/boundary/rounding-tie quadruples, both orders; the longitude-zone count is walked over all 3.9 M + 3.9 M reachable latitudes with the change points judged by TLC. Step D: MC_CPR round trip on 34 992 states; NL thresholds recomputed from the closed form.",
+ "C06": "Exhaustive: all 8192 13-bit codes in DF0/4/16/20 and all 4096 12-bit codes in each of the 13 type codes are decoded by the real code and compared by TLC with ModeAC!AC13/AC12 written from the Gray-code definition. Step D: MC_ModeAC (8192 states) shows the Gillham map is a bijection onto -1200..126700 ft with the Gray property.",
+ "C07": "All raw velocity fields (every code) and the derived velocity are judged by TLC: components and vertical rate exactly, ground speed by an integer-square-root bracket, track by the fixed-point sine/cosine relation (no inverse functions). Quick: lattice of components; thorough: all 2^22 combinations of direction bits and components.",
+ "C08": "Every 6-bit code at every one of the 8 positions, all pairs of positions, padded and random strings in both carriers (type 1-4, BDS 2,0), all type/category values; TLC compares with the Annex 10 character set (Frame!Chars8, CallsignOK).",
+ "C09": "Exhaustive: all 8192 identity codes in DF5, DF21 and type 28 compared by TLC with ModeAC!Identity; all subtype/emergency pairs. Step D: MC_ModeAC shows the de-interleaving is a bijection onto four octal digits and ignores X.",
+ "C10": "Every interpreted payload field (surface/airborne position, target state, operational status airborne/surface, BDS 1,0) is swept (all values up to 12 bits, boundary/walking/random beyond) under DF17, DF18 x 8 control-field types and DF20/21 and compared by TLC with the DO-260B / ICAO 9871 offsets and scalings in Frame.tla; dispatch grid over type code x subtype and all first MB bytes.",
+ "C11": "The text of ~8 K (quick) recorded frames, including a generator that takes each branch condition of the renderer both ways, is compared line by line by TLC with Render.tla (per-type templates instantiated with the contract's decoded values; float tokens numerically; printed heading via trig relation).",
+ "C12": "MC_Tracker (TLC, 564 K states quick / 2.4 M + 6.4 M random-walk states thorough) checks CountExact, AddedIffNew, Isolation, OnlyExpiryShrinks on the tracking rules of Tracker.tla; one concretised history per distinct model state (6 K quick / 40 K thorough) and random histories are run through the real Airplanes and every step is judged from the observed pre-state by Trace_Tracker, which instantiates the same rules.",
+ "C13": "Same models and recordings as C12; Trace_Tracker instantiates Tracker!PosUpd with CPR!GlobalDecode and Geo (fixed-point haversine in verification direction, 5 m tolerance, 25 m guard band at the range and 100 km thresholds); threshold flights along meridians/equator hit both sides of each limit within tens of metres.",
+ "C14": "Same models and recordings as C12; latest-wins attributes, per-component 'changed' verdicts, the track step (TrackStepOK) and the derived views (details, all_position, Display, distance iff position) are judged after every step.",
+ "C15": "MC_Tracker PruneRemovesExactly / ReaddedIsFresh; recorded histories with integer clock ticks (guarded hook verif_backdate moves every timestamp) and prune(T), T in 0..120, judged by Trace_Tracker against the spec's own clock; histories that took >= 0.9 s of wall time are repeated, never judged.",
+ "C16": "MC_Feed (TLC) checks NoCrash / ExactlyOnceInOrder / AllProcessed over every segmentation (<= 4 segments) and gap assignment of small feeds; TLAPS proves NoCrash for all streams and schedules (thorough). Schedules of the model, malformed-line and split-invalid feeds, --limit-parsing, disconnect and reconnect runs are executed against the real 1090 and radar over loopback TCP and judged by Trace_Feed.",
+ "C17": "MC_RadarUI (TLC) checks NoPanic / SelectionShown over keys, mouse events, arrivals/expiry and bursts between draws; behaviours of the model and seeded random operator sessions (terminal sizes down to 1x1, SGR mouse, resizes, raw junk), quitting while waiting for a (re)connection, and a grid of malformed option values are run against the real radar in a pty; exit status, termios, DEC modes and panics judged by Trace_UI; every logged step is explained by the handler tables (drift = 0).",
+ "C18": "Screens reconstructed by a terminal model at the hook's frame markers are paired with the hook's per-aircraft data and judged by Trace_Screen: title counts, every Airplanes row (address, callsign, lat, lon, altitude, distance, messages), Stats totals tracked through the trace, Map label column by the linear longitude scale (+-1) and row by linearised Mercator (+-2), distances measured from the receiver whatever the view, data unchanged by view actions; MC_RadarUI ViewOnly / StatsOK.",
+ "C19": "MC_Reader (TLC) explores every schedule with <= 1/2 short reads and <= 1/2 Interrupted errors of the read/seek programs of 40 frame shapes (taken from reference runs of the real decoder) and checks the checksum-window invariants; every model schedule, random schedules, frames behind a prefix and back-to-back frames are replayed through a scripted Read+Seek and judged by Trace_Reader (result equals the slice decode; decoding is pure).",
+ "C20": "The recorder is built twice (std+serde, alloc-only); both run the same decode / pairing / tracker inputs and Trace_Config requires the projections (and texts) to be identical; every decoded frame and tracker states inside histories are sent through serde_json and back and re-projected.",
+}
+
+
 def main():
     props = [json.loads(l) for l in open(os.path.join(V, "properties.jsonl"))]
     checks = []
@@ -43,7 +67,7 @@ def main():
             "replay_cmd_template": "./check replay {path}",
             "engine": "tlc-trace",
             "level_claimed": {"category": "model_checking",
-                              "text": "The property is stated in the TLA+ specification (spec/*.tla); TLC decides it on the specification (Step D) and validates recorded executions of the real code, event by event, against the specification (Step C). Bounded/sampled where the input space is not enumerable; exhaustive where stated in the evidence.",
+                              "text": TEXT[pid],
                               "design_ref": ref},
             "level_note": "trusted: TLC, the TLA+ specification as a rendering of the standards, the recorder's field projection (renaming only); inputs beyond the enumerated sweeps are seeded samples",
             "technique": tech,
